@@ -9,6 +9,7 @@ open VncModel VncModel.Life VncModel.Proto
 structure DState where
   v : Variant := Variant.current
   w : World := {}
+  httpDown : Bool := false   -- rfbShutdownServer has closed the HTTP server's sockets
 
 def cid? (s : String) : Option Nat :=
   if s.startsWith "c" then (s.drop 1).toString.toNat? else none
@@ -170,15 +171,24 @@ def dstep (s : DState) (toks0 : List String) : DState × List String :=
       let x := annFail xs i
       fin s (step s.v s.w (.conn h ws nb x))
     | none => (s, ["bad-op"])
+  | "hconn" :: c :: opts =>
+    -- the HTTP server's proxy hand-over ends in the same rfbNewClient: same transition
+    match cid? c with
+    | some i =>
+      if i != s.w.conns.length || s.httpDown then (s, ["bad-op"]) else
+      let h := (opts.filterMap hook?).head?.getD .accept
+      fin s (step s.v s.w (.conn h 0 false (annFail xs i)))
+    | none => (s, ["bad-op"])
   | ["pump"] => fin s (step s.v s.w (.pump xs rs))
   | ["draw", _] => fin s (step s.v s.w (.pump xs rs))
   | ["ext"] | ["ext", _] => fin s (step s.v s.w .ext)
   | ["pw"] => fin s (step s.v s.w .pw)
-  | ["cursor"] | ["shutdown0"] => fin s s.w
+  | ["cursor"] => fin s s.w
+  | ["shutdown0"] => fin { s with httpDown := true } s.w
   | ["auth", c, r] => sendOp s c (.auth (r == "ok")) xs rs
   | ["ptr", c, m] => sendOp s c (.ptr (m != "0")) xs rs
   | ["ftgo", c] => sendOp s c .ftgo xs rs
-  | ["shutdown"] => fin s (step s.v s.w .shutdown)
+  | ["shutdown"] => fin { s with httpDown := true } (step s.v s.w .shutdown)
   | ["cleanup"] => fin s (step s.v s.w .cleanup)
   | ["ver", c] => sendOp s c .ver xs rs
   | ["sec", c] => sendOp s c .sec xs rs
